@@ -21,7 +21,11 @@ RULE = (
     "maximal number of decimals). Float values come from five families: decimal ties (exact and +-1 ulp), 9.99.. "
     "carries, magnitude sweep, random bit patterns, +-0/tiny; widths around the fitting threshold so that 0, some or "
     "all decimals must be dropped. In-domain is decided by Spec.C01.inDomain (non-fitting cases are skipped and "
-    "counted). non-trivial = at least one non-missing value; distinct by full case."
+    "counted). non-trivial = at least one non-missing value; distinct by full case. A quarter of the cases put a "
+    "warm-up history through the SAME Line object before the observed cycle (1-3 earlier records read from text "
+    "composed outside the line in any dialect the reader accepts — every format of a date field's list, either float "
+    "notation, left/right aligned, blank, garbage, short lines — and earlier writes of other values); the model "
+    "computes the cycle without the history, so anything an earlier use leaves behind in the line or its fields shows."
 )
 ASSUMPTIONS = [
     "E notation only with decimal_digits <= 12 (libm log10 vs exact floor(log10), DESIGN appendix A)",
@@ -30,7 +34,7 @@ ASSUMPTIONS = [
     "half-unit accuracy is claimed (and checked) only under |x|*10^D < 2^51; outside it the double rounding of round()+format() can exceed half a unit, text equality with the exact model is still required",
 ]
 TRUSTED = ["CPython round()/format()/float()/int()/strftime/strptime are correctly rounded / as documented; the model computes the same results exactly and is compared with them on every case"]
-NOT_THEOREMS = ['Spec.C01.holds (stability and float clauses) for E-notation float fields holding a non-zero value below 10^(decimals-322) (subnormal values whose last emitted digit would have place value 10^-323 or less; the statement is false at eight of them, K2 = Props.C01.subnormal_E_counterexample): validated here by exact text equality with the model and by evaluating Spec.C01.holds on every case. It IS a theorem for F notation (every finite double, the largest one included, with the decimals-dropping loop: Props.C01.main_F_full) and for E notation with zero, every normal double and every subnormal double from 10^(decimals-322) on (Proofs.FloatE.wfE; Props.C01.main_FE_full); the read-back clause is a theorem for every layout in Spec.C01.inDomain (Props.C01.readBack_of_inDomain)']
+NOT_THEOREMS = ['the float clauses of Spec.C01.holds (half-unit accuracy) for E-notation float fields holding a value in the one decimal decade 10^(decimals-323) <= |x| < 10^(decimals-322) (subnormal values whose last emitted digit has place value 10^-323, about two subnormal steps): the clause is FALSE at eight of them (K2 = Props.C01.subnormal_E_counterexample, k2_in_band) and is evaluated per case there; read-back and text stability ARE theorems for every finite double in E-notation fields too (Props.C01.main_FE with floatFB_all: the ranges wfB / zero / wfFine leave nothing out). It IS a theorem for F notation (every finite double, the largest one included, with the decimals-dropping loop: Props.C01.main_F_full) and for E notation with zero, every normal double, every subnormal double from 10^(decimals-322) on (Proofs.FloatE.wfE) and every subnormal double below 10^(decimals-323) (wfFine: round() returns its argument, one correct rounding; Props.C01.main_FE_full); the read-back clause is a theorem for every layout in Spec.C01.inDomain (Props.C01.readBack_of_inDomain)']
 EXHAUSTIVE = {"quick": False, "thorough": False}
 
 DATE_FMTS = ["%Y/%m/%d", "%d/%m/%Y", "%Y-%m-%d %H:%M", "%d%m%y", "%H:%M:%S", "%Y%m%d%H%M%S", "%d/%m/%Y %H:%M:%S.%f", "%m/%Y", "%y-%m-%d",
@@ -101,6 +105,16 @@ def run_impl(case):
     try:
         ln = mk_line(case)
         vals = [codec.dec_val(v) for v in case["values"]]
+        for st in case.get("warm") or []:
+            # earlier uses of the same object (legitimate reads / writes of other records); whatever they
+            # return or raise is not the matter here, the cycle observed below must not depend on them
+            try:
+                if st[0] == "read":
+                    ln.read(codec.dec_str(st[1]))
+                elif st[0] == "write":
+                    ln.write([codec.dec_val(v) for v in st[1]])
+            except Exception:
+                pass
         if case.get("prior"):
             # an earlier record goes through the SAME line object first (a file reader/writer reuses one
             # Line per register class); the text of the record under test is produced by a second, fresh
@@ -127,6 +141,15 @@ def request(case, obs):
 
 
 def judge(case, obs, resp):
+    v = judge0(case, obs, resp)
+    if case.get("warm") and v["status"] in ("oracle", "corr"):
+        w = case["warm"]
+        v = dict(v, why=v["why"] + f" [the same Line object had been used before: {sum(1 for s in w if s[0] == 'read')} earlier read(s), "
+                 f"{sum(1 for s in w if s[0] == 'write')} earlier write(s) of other records; the cycle must not depend on them]")
+    return v
+
+
+def judge0(case, obs, resp):
     if "error" in resp:
         return {"status": "error", "why": resp["error"]}
     if "harness_exc" in obs:
@@ -172,6 +195,9 @@ def features(case, obs):
     f = [f"nfields={len(case['fields'])}", "built_by_setters" if case.get("build") else "built_by_ctor"]
     if case.get("prior"):
         f.append("after_a_prior_record_through_the_same_line")
+    if case.get("warm"):
+        f.append("warm_up_history_on_the_same_line")
+        f += sorted({f"warm_step={st[0]}" for st in case["warm"]})
     for fd, v in zip(case["fields"], case["values"]):
         f.append(f"kind={fd['k']}" + (":" + codec.dec_str(fd["fmt"]).upper() if fd["k"] == "flt" else ""))
         if v is None or (isinstance(v, dict) and ("nat" in v or v.get("f") == codec.NAN_BITS)):
@@ -375,7 +401,62 @@ def random_case(rng):
             prior.append(v2 if False else None)
         case["prior"] = [v if v is not None else None for v in case["values"]]
         case["values"] = [None if rng.random() < 0.5 else v for v in case["values"]]
+    if rng.random() < 0.25:
+        case["warm"] = random_warm(rng, case)
     return case
+
+
+def foreign_text(rng, fields):
+    """a record for this layout composed OUTSIDE the line, in any dialect its reader accepts (and sometimes
+    in none): what a file written by another program holds"""
+    end = max(fd["start"] + fd["size"] for fd in fields)
+    buf = [" "] * end
+    for fd in fields:
+        k, size = fd["k"], fd["size"]
+        r = rng.random()
+        if r < 0.12:
+            s = ""
+        elif r < 0.2:
+            s = rng.choice(["?", "--", "1.2.3", "x1", "99/99/9999"])
+        elif k == "int":
+            s = str(rng.randrange(-(10 ** rng.randrange(1, 6)), 10 ** rng.randrange(1, 10)))
+        elif k == "lit":
+            s = "".join(rng.choice("abcXYZ019 -_/.,é") for _ in range(rng.randrange(0, size + 1)))
+        elif k == "flt":
+            x = rng.choice([-1, 1, 1]) * rng.uniform(0, 10) * 10.0 ** rng.randrange(-4, 7)
+            s = "{:.{d}{f}}".format(x, d=rng.randrange(0, 7), f=rng.choice("fFeE"))
+            if rng.random() < 0.7:
+                s = s.replace(".", codec.dec_str(fd["sep"]))
+        else:
+            t = datetime(rng.randrange(1000, 10000), rng.randrange(1, 13), rng.randrange(1, 29), rng.randrange(24), rng.randrange(60), rng.randrange(60), rng.choice([0, rng.randrange(10**6)]))
+            s = t.strftime(codec.dec_str(rng.choice(fd["fmts"])))
+        s = s[:size]
+        s = s.ljust(size) if (k in ("lit", "date")) == (rng.random() < 0.8) else s.rjust(size)
+        buf[fd["start"] : fd["start"] + size] = s
+    text = "".join(buf)
+    if rng.random() < 0.1:
+        text = text[: rng.randrange(0, len(text) + 1)]
+    return text + rng.choice(["\n", "\n", ""])
+
+
+def random_warm(rng, case):
+    """1-3 earlier uses of the same Line object: reads of foreign records, writes of other value lists"""
+    steps = []
+    for _ in range(rng.choice([1, 1, 2, 3])):
+        if rng.random() < 0.7:
+            steps.append(["read", codec.enc_str(foreign_text(rng, case["fields"]))])
+        else:
+            vals = []
+            for fd in case["fields"]:
+                for _ in range(8):
+                    fd2, v2 = make_field(rng, fd["start"], [])
+                    if fd2["k"] == fd["k"]:
+                        break
+                else:
+                    v2 = None
+                vals.append(v2)
+            steps.append(["write", vals])
+    return steps
 
 
 def random_build(rng, case):
@@ -474,9 +555,16 @@ def shrinks(case):
     n = len(case["fields"])
     if n > 1:
         for i in range(n):
-            yield {**case, "fields": case["fields"][:i] + case["fields"][i + 1 :], "values": case["values"][:i] + case["values"][i + 1 :], **({"prior": case["prior"][:i] + case["prior"][i + 1 :]} if case.get("prior") else {})}
+            yield {**case, "fields": case["fields"][:i] + case["fields"][i + 1 :], "values": case["values"][:i] + case["values"][i + 1 :], **({"prior": case["prior"][:i] + case["prior"][i + 1 :]} if case.get("prior") else {}),
+                   **({"warm": [[st[0], st[1][:i] + st[1][i + 1 :]] if st[0] == "write" else st for st in case["warm"]]} if case.get("warm") else {})}
     if case.get("prior"):
         yield {k: v for k, v in case.items() if k != "prior"}
+    if case.get("warm"):
+        w = case["warm"]
+        if len(w) > 1:
+            for i in range(len(w)):
+                yield {**case, "warm": w[:i] + w[i + 1 :]}
+        yield {k: v for k, v in case.items() if k != "warm"}
     if case.get("build"):
         b = case["build"]
         for i in range(1, len(b)):
